@@ -12,4 +12,15 @@ if [ "$TIER" = thorough ]; then
   # checker self-test for this property (tests the checker, not /repo; recorded in the evidence, never changes the exit status)
   mkdir -p selftest; python3 tools/selftest.py prop "$PROP" > "selftest/log-$PROP.txt" 2>&1 || true
 fi
-exec ./bin/verifchk -prop "$PROP" -tier "$TIER" -repo "${VERIF_REPO:-/repo}" -verif "$(pwd)"
+./bin/verifchk -prop "$PROP" -tier "$TIER" -repo "${VERIF_REPO:-/repo}" -verif "$(pwd)"
+rc=$?
+if [ $rc -ne 0 ] && [ $rc -ne 1 ]; then
+  # the analyser itself died (runtime fatal error, out of memory, killed): nothing was decided.
+  # Like an analyser panic this fails closed, in the contract's form.
+  mkdir -p evidence
+  printf '{"property":"%s","analyser_exit":%d,"violations":[{"rule":"analyser","construct":"crash","detail":"the checker process ended with status %d before reaching a verdict (fails closed)"}]}\n' "$PROP" $rc $rc > "evidence/$PROP.violations.json"
+  echo "violation: $PROP.analyser crash @-: the checker process ended with status $rc before reaching a verdict (fails closed)"
+  echo "VIOLATION property=$PROP replay=$(pwd)/evidence/$PROP.violations.json"
+  exit 1
+fi
+exit $rc
